@@ -197,8 +197,11 @@ def h_accuracy_dense(ctx, shape):
     ctx.claim('dense_relative_distance', ctx.eq(acc * acc * sumsq(B), sumsq(A - B)))
 
 
-def h_orth_stab_quasi(ctx, d, n, k):
+def h_orth_stab_quasi(ctx, d, n, k, neg=False):
+    """neg: the pivot core has non-positive entries only (its largest entry is a zero)."""
     Y, W = quasi_diag_tt(ctx, d, n)
+    if neg:
+        Y[k] = Y[k] * (-1)
     Y0 = [G.copy() for G in Y]
     Z, p = teneva.orthogonalize(Y, k, use_stab=True)
     ctx.claim('well_formed', well_formed(Z, [n] * d))
@@ -347,6 +350,9 @@ def instances(tier):
     for d, n in ([(3, 2)] if quick else [(3, 2), (4, 2)]):
         for k in range(d):
             out.append({'func': 'h_orth_stab_quasi', 'params': {'d': d, 'n': n, 'k': k}, 'opts': {'symbolic_signs': False}})
+            if n == 2 and k in (0, d - 1):
+                out.append({'func': 'h_orth_stab_quasi', 'params': {'d': d, 'n': n, 'k': k, 'neg': True},
+                            'opts': {'symbolic_signs': False}})
     out.append({'func': 'h_orth_stab_d2', 'params': {'n1': 2, 'n2': 2, 'r': 2}})
     out.append({'func': 'h_concrete_small_norm', 'params': {}, 'opts': {'concrete_only': True}})
     out.append({'func': 'h_concrete_saturation_boundary', 'params': {}, 'opts': {'concrete_only': True}})
